@@ -20,6 +20,13 @@ CHECKS = {
             'parsed document is the same at every indent, decoded value re-encodes',
             'trusts Python json and expat as the independent readers; XER strings restricted to XML 1.0 Char',
             'property-based testing (Hypothesis), round-trip + metamorphic (indent) oracle, independent parsers'),
+    'C07': ('hypothesis', 'exploration',
+            'generated V1 module sets and V2 = V1 after 1-5 legal extension steps at random extensible nodes x V2 and V1 '
+            'values x 7 codecs: V1.decode(V2.encode(v2)) equals the V1 projection of v2 (unknown additions dropped, '
+            'unknown alternative (None, None), unknown enumeration item None) and V2.decode(V1.encode(v1)) equals v1',
+            'projection and abstract equality are vlib/evolve.py and vlib/aeq.py; trailing root components after a second '
+            'marker are not generated (their AUTOMATIC numbering is a scope note in DESIGN.md)',
+            'property-based testing (Hypothesis) over generated version pairs, cross-version differential'),
     'C11': ('hypothesis', 'exploration',
             'generated modules with the interpreted constraint forms x valid values, each constrained component '
             'replaced in turn by lb-1/lb/ub/ub+1 (sizes likewise, one character outside FROM): '
